@@ -26,11 +26,12 @@ def main():
     # executions: run the first config of every accepted text
     runs = {}
     for idx, text in items:
-        c = X.compile_one(text, *batch['configs'][0])
-        if c.kind == 'accepted':
-            r = X.execute(c.module, X.Script(**batch['scripts'][idx]),
-                          tick_budget=batch['tick_budget'])
-            runs[str(idx)] = run_hash(r)
+        for rc in batch.get('run_configs') or [batch['configs'][0]]:
+            c = X.compile_one(text, rc[0], bool(rc[1]))
+            if c.kind == 'accepted':
+                r = X.execute(c.module, X.Script(**batch['scripts'][idx]),
+                              tick_budget=batch['tick_budget'])
+                runs['%d:%d' % (idx, int(bool(rc[1])))] = run_hash(r)
     json.dump({'hashes': out, 'runs': runs}, sys.stdout)
 
 
